@@ -1,4 +1,4 @@
-import GeomV.C20.Spec
+import GeomV.C20.Spec2
 /-!
 Driver for C20.  `geomv_c20 prep` renders each generated `Crs` in both notations with the Spec's own
 renderers (and attaches the definition string of a registered name from the regenerated table);
@@ -77,9 +77,21 @@ def prepLine (line : String) : String :=
     -- twin definitions: the same description with one parameter SET vs LEFT OUT, in both notations
     match parseCrs (rest.take 16), (rest.getD 16 "0").toNat? with
     | some (c, st), some om =>
+      if om ≥ 10 then
+        -- two realisations of one datum: term (om % 10) of the shift changed by 1 (10..19) or by 0.01 (20..29)
+        let c' := bumpShift c (om % 10) (om ≥ 20)
+        s!"twinx {" ".intercalate rest} | {hexOf (toProj4 c st)} {hexOf (toProj4 c' st)} {hexOf (toWkt c st)} {hexOf (toWkt c' st)}"
+      else
       let so := { st with leaveOut := om }
       s!"twinx {" ".intercalate rest} | {hexOf (toProj4 c st)} {hexOf (toProj4 c so)} {hexOf (toWkt c st)} {hexOf (toWkt c so)}"
     | _, _ => "skip bad-twin-line"
+  | "sph" :: rest =>
+    -- a SPHERE in both notations: PROJ.4 `+a=R +b=R`, WKT `SPHEROID[..,R,0]`
+    match parseCrs (rest.take 16) with
+    | some (c, st) =>
+      let (p4, w) := sphereTexts c st
+      s!"pair2 {hexOf p4} {hexOf w} {rest.getD 16 "0"} {rest.getD 17 "0"} sphere-{rest.headD "?"}-{match c.unit with | .metre => "m" | .foot => "ft" | _ => "usft"}"
+    | none => "skip bad-sph-line"
   | "reghist" :: hs =>
     -- a history: parse these texts first, THEN check every registered name against its definition string
     -- and every alias against its target
@@ -281,11 +293,11 @@ def gridAgree (geo : Bool) (scale : Float) : Nat → Tok → Option String
       let siw := nrm siw
       if sp ≠ sw then some s!"forward-status-differs:{sp}/{sw}@{lon},{lat}"
       else if sp = "panic" then some "transform-panicked"
-      else if sp = "ok" && (xp.isNaN || yp.isNaN) then some s!"forward-NaN-without-error@{lon},{lat}"
+      else if sp = "ok" && (xp.isNaN || yp.isNaN || xw.isNaN || yw.isNaN) then some s!"forward-NaN-without-error@{lon},{lat}"
       else if sp = "ok" && !((xp - xw).abs * fs ≤ micrometre && (yp - yw).abs * fs ≤ micrometre) then
         some s!"forward-differs-by-{fmax ((xp - xw).abs * fs) ((yp - yw).abs * fs)}m@{lon},{lat}"
       else if sip ≠ siw then some s!"inverse-status-differs:{sip}/{siw}"
-      else if sip = "ok" && (lp.isNaN || bp.isNaN) then some "inverse-NaN-without-error"
+      else if sip = "ok" && (lp.isNaN || bp.isNaN || lw.isNaN || bw.isNaN) then some "inverse-NaN-without-error"
       else if sip = "ok" && !((lp - lw).abs * 111320.0 ≤ micrometre && (bp - bw).abs * 111320.0 ≤ micrometre) then
         some s!"inverse-differs-by-{fmax ((lp - lw).abs * 111320.0) ((bp - bw).abs * 111320.0)}m"
       else gridAgree geo scale n rest
@@ -363,7 +375,7 @@ def judgePair (lhs rhs : Tok) : String :=
 
 /-- one twin comparison `A <st> B <st> EQ ab ba NIL ab ba GRID n …` for the definitions `da`, `db`; returns the
 verdict text without the class (`none` = fine) and the rest of the tokens -/
-def judgeTwin (da db : Str) (r : Tok) : Option (String × String) × Tok :=
+def judgeTwin (da db : Str) (r : Tok) (mustDiffer : Bool := false) : Option (String × String) × Tok :=
   match r with
   | "A" :: sa :: "B" :: sb :: "EQ" :: eab :: eba :: "NIL" :: nab :: nba :: "GRID" :: gn :: g =>
     let n := gn.toNat?.getD 0
@@ -374,6 +386,9 @@ def judgeTwin (da db : Str) (r : Tok) : Option (String × String) × Tok :=
       else if eab = "panic" || eba = "panic" || nab = "panic" || nba = "panic" then some ("SPEC", "Equal-or-NewTransform-panicked")
       else if eab ≠ eba then some ("SPEC", s!"Equal-not-symmetric({eab},{eba})")
       else if nab ≠ eab || nba ≠ eba then some ("SPEC", s!"NewTransform-nil({nab},{nba})-but-Equal({eab},{eba})")
+      else if mustDiffer && eab = "t" then
+        -- the two descriptions differ in a term of the datum shift by 0.01 or more: they are not "equal within 3 ULP"
+        some ("SPEC", "Equal-and-nil-transformer-between-references-whose-datum-shifts-differ")
       else if eab = "t" then
         -- Equal references get the identity transformer: they must then BE the same projection
         (match gridAgree true 1.0 n g with
@@ -404,14 +419,16 @@ partial def judgeLine (line : String) : String :=
   | "twinx" :: rest =>
     let desc := rest.takeWhile (· ≠ "|")
     let hs := rest.drop (desc.length + 1)
-    let cls := s!"twin-{desc.headD "?"}-omit{desc.getD 16 "?"}"
+    let om := (desc.getD 16 "0").toNat?.getD 0
+    let shift := om ≥ 10     -- the twin differs in one term of the datum shift (not in a parameter left out)
+    let cls := if shift then s!"twin-{desc.headD "?"}-shift{om}" else s!"twin-{desc.headD "?"}-omit{desc.getD 16 "?"}"
     match hs.map unhex, rhs with
     | [some p, some po, some w, some wo], "P4" :: r1 =>
-      let (v1, r2) := judgeTwin p po r1
+      let (v1, r2) := judgeTwin p po r1 shift
       match v1 with
       | some (k, m) => s!"{k} {cls} PROJ.4:{m}"
       | none =>
-        let (v2, _) := judgeTwin w wo (r2.drop 1)
+        let (v2, _) := judgeTwin w wo (r2.drop 1) shift
         match v2 with
         | some (k, m) => s!"{k} {cls} WKT:{m}"
         | none => s!"OK {cls}"
@@ -423,14 +440,30 @@ partial def judgeLine (line : String) : String :=
       | some (k, m) => s!"{k} twin2 {m}"
       | none => "OK twin2"
     | _, _ => "BAD twin2"
-  | ["pair2", _, _, _, _] =>
+  | "pair2" :: ha :: hb :: _ :: _ :: tag =>
+    let cls := match tag with | [t] => s!"pair2-{t}" | _ => "pair2"
     match rhs with
     | "P" :: sa :: "W" :: sb :: "GRID" :: n :: g =>
-      if sa ≠ "ok" || sb ≠ "ok" then s!"SPEC pair2 definition-rejected({sa},{sb})"
-      else match gridAgree true 1.0 (n.toNat?.getD 0) g with   -- strictest scale: 1 unit = 111 km
-        | some f => s!"SPEC pair2 {f}"
-        | none => "OK pair2"
-    | _ => "DIFF pair2 malformed-impl-line"
+      if sa ≠ "ok" || sb ≠ "ok" then s!"SPEC {cls} definition-rejected({sa},{sb})"
+      else
+      -- hand-written pairs: strictest scale (1 unit = 111 km); generated pairs say their kind and linear unit
+      let tg := tag.headD ""
+      let geo := tag.isEmpty || (tg.splitOn "-geog").length > 1
+      let scale : Float := if tg.endsWith "-usft" then 0.3048006096012192 else if tg.endsWith "-ft" then 0.3048 else 1.0
+      match gridAgree geo scale (n.toNat?.getD 0) g with
+        | some f => s!"SPEC {cls} {f}"
+        | none =>
+          if tag.isEmpty then s!"OK {cls}" else
+          -- generated spellings: the model must also read both (Equal decision of the model is not compared here)
+          match unhex ha, unhex hb with
+          | some a, some b =>
+            let ma : Except Err (SR Float) := parse a
+            let mb : Except Err (SR Float) := parse b
+            (match ma, mb with
+             | .ok _, .ok _ => s!"OK {cls}"
+             | _, _ => s!"DIFF {cls} model-rejects-a-definition-the-implementation-reads")
+          | _, _ => "BAD pair2"
+    | _ => s!"DIFF {cls} malformed-impl-line"
   | ["raw", h] =>
     match unhex h with
     | none => "BAD hex"
